@@ -198,6 +198,15 @@ where
         self.cancel();
     }
 
+    /// Release every scheduler role without going through `cancel()`: sets the abort flag and
+    /// unparks both coordinators directly, so that a run can be wound down for diagnosis even if
+    /// the production cancellation path itself is what is broken.
+    pub fn verif_force_release(&self) {
+        self.abort.store(true, std::sync::atomic::Ordering::SeqCst);
+        self.finality_wait.notify();
+        self.commit_wait.notify();
+    }
+
     /// Snapshot coordination state for the stall detector.
     pub fn verif_dump(&self) -> SchedulerDump {
         let timeout = Duration::from_millis(200);
